@@ -148,7 +148,7 @@ def no_gc():
 
 
 def record_batches(ptycho, batch_size, num_iters=1, freeze=True, reset=True, loss_type="l2_amplitude", autograd=True,
-                   optimizer_params=None, constraints=None):
+                   optimizer_params=None, constraints=None, keep_optimizers=False):
     """Run the real ``reconstruct`` loop and record every training batch.
 
     Instance-level wrappers (nothing in /repo is changed) around ``error_estimate`` (records
@@ -157,6 +157,9 @@ def record_batches(ptycho, batch_size, num_iters=1, freeze=True, reset=True, los
     ``freeze=True`` the optimizer step itself is skipped, so the parameters stay at their
     initial values and batches of different runs are comparable.  Validation batches (called
     under ``torch.no_grad``) are recorded with ``"val": True`` and no gradients.
+
+    ``keep_optimizers=True`` passes ``optimizer_params=None`` to ``reconstruct`` (continue a run with
+    the optimizers it already has) instead of installing fresh SGD optimizers.
 
     Returns a list of dicts ``{"iter", "indices", "loss", "val", "grads": {"object", "probe"}}``
     (numpy arrays, gradients as complex128 / float64 copies).
@@ -194,7 +197,7 @@ def record_batches(ptycho, batch_size, num_iters=1, freeze=True, reset=True, los
     ptycho.step_optimizers = step
     try:
         ptycho.reconstruct(num_iters=num_iters, reset=reset, batch_size=batch_size, loss_type=loss_type, autograd=autograd,
-                           optimizer_params=optimizer_params if optimizer_params is not None else sgd_params(),
+                           optimizer_params=None if keep_optimizers else (optimizer_params if optimizer_params is not None else sgd_params()),
                            constraints=constraints if constraints is not None else {})
     finally:
         del ptycho.error_estimate
